@@ -104,6 +104,7 @@ void model_insert(Block* b, const char* what) {
     if ((uintptr_t)n->p + (n->usable ? n->usable : 1) > s) sim_violation("overlap", "%s returned %p (usable %zu) which lies inside live block #%llu at %p (usable %zu, slot %d, allocated by thread %d)", what, (void*)b->p, b->usable, (unsigned long long)n->id, (void*)n->p, n->usable, n->slot, n->prog);
   }
   H.live[s] = b;
+  for (auto& w : H.watch) if (!w.dropped && w.p < e && w.p + w.usable > s) w.dropped = true;   // handed out again
 }
 void model_remove(Block* b) { H.live.erase((uintptr_t)b->p); }
 
@@ -158,7 +159,7 @@ int heap_for_alloc(const Op& op) {
 
 // all blocks of the model heaps of `prog` lose their owner (thread exit / mi_thread_done)
 static void orphan_thread_blocks(int prog) {
-  for (auto& kv : H.live) { Block* b = kv.second; if (b->heap >= 0 && H.heaps[b->heap].prog == prog) b->heap = -1; }
+  for (auto& kv : H.live) { Block* b = kv.second; if (b->heap >= 0 && H.heaps[b->heap].prog == prog) { b->orphan_kind = (H.heaps[b->heap].tag != 0 ? 2 : 1); b->heap = -1; } }
   for (auto& m : H.heaps) if (m.prog == prog) m.alive = false;
 }
 
@@ -316,11 +317,14 @@ static void do_free(const Op& op) {
   // a block must be released within its own sub-process' threads? (no: any thread may free); verify contents first
   block_verify(b, "at free");
   model_remove(b);
+  if (b->orphan_kind >= 2 && b->prog == T->prog) snprintf(T->note, sizeof T->note, " while thread %d releases block #%llu whose page was orphaned by mi_heap_delete of a %s heap", T->prog, (unsigned long long)b->id, b->orphan_kind == 2 ? "tagged" : "arena-bound");
   H.frees++;
   void* p = b->p;
   g_api_hash.add((uint64_t)(uintptr_t)p ^ 0xF4EEull);
   size_t al = b->align ? b->align : 1;
   while (al > 1 && ((uintptr_t)p % al) != 0) al >>= 1;
+  if (op.flags & OPF_WATCH) H.watch.push_back(Harness::Watch{(uintptr_t)p, b->usable, g_os.log.size(), clock_now_ns() / 1000000ull, false, H.activity_rounds});
+  if (op.flags & OPF_SENTINEL) H.sentinel_bases.push_back((uintptr_t)p & ~(((uintptr_t)32 << 20) - 1));
   switch (op.code) {
     case OP_free: mi_free(p); break;
     case OP_free_size: mi_free_size(p, b->req); break;
@@ -344,7 +348,8 @@ static void do_realloc(const Op& op) {
   mi_heap_t* h = (mh >= 0 ? heap_ptr(mh) : nullptr);
   const uint64_t a = op.a, bb = op.b, c = op.c, d = op.d;
   void* p = old ? old->p : nullptr;
-  if (old) { block_verify(old, "before realloc"); model_remove(old); H.slots[s] = nullptr; }
+  if (old) { block_verify(old, "before realloc"); model_remove(old); H.slots[s] = nullptr;
+    if (old->orphan_kind >= 2 && old->prog == T->prog) snprintf(T->note, sizeof T->note, " while thread %d releases block #%llu whose page was orphaned by mi_heap_delete of a %s heap", T->prog, (unsigned long long)old->id, old->orphan_kind == 2 ? "tagged" : "arena-bound"); }
   g_busy[s] = 1;
   size_t newreq = 0; size_t align = 0, offset = 0; bool zero = false; bool is_expand = false; bool frees_on_fail = false; bool overflow = false;
   void* q = nullptr; int rc = 0;
@@ -434,7 +439,7 @@ static void do_realloc(const Op& op) {
   Block* nb = new Block();
   nb->p = (uint8_t*)q; nb->req = newreq; nb->usable = usable; nb->id = H.next_block_id++; nb->align = align; nb->offset = offset;
   nb->prog = T->prog; nb->subproc = T->subproc; nb->slot = s;
-  if (q == p && old) { nb->heap = old->heap; nb->prog = old->prog; probe(PR_realloc_inplace); }
+  if (q == p && old) { nb->heap = old->heap; nb->prog = old->prog; nb->subproc = old->subproc; nb->orphan_kind = old->orphan_kind; probe(PR_realloc_inplace); }
   else { nb->heap = (mh >= 0 ? mh : T->deflt); probe(PR_realloc_moved); }
   // zero lineage
   bool was_z = old ? old->zchain : true;   // a NULL input behaves as a zeroing allocation for the z-variants
@@ -478,7 +483,14 @@ static void do_heap_op(const Op& op) {
       if (destroy) {
         probe(PR_heap_destroy);
         std::vector<Block*> gone;
-        for (auto& kv : H.live) if (kv.second->heap == mh) gone.push_back(kv.second);
+        const bool fa = H.forced_abandon_possible || mi_option_get(mi_option_target_segments_per_thread) > 0;
+        sched_set_passthrough(true);
+        for (auto& kv : H.live) if (kv.second->heap == mh) {
+          // with forced abandonment (target_segments_per_thread / mi_collect_reduce) a page may have left the heap: such blocks survive
+          if (fa && !mi_heap_contains_block(m.h, kv.second->p)) { kv.second->heap = -1; continue; }
+          gone.push_back(kv.second);
+        }
+        sched_set_passthrough(false);
         for (Block* b : gone) { block_verify(b, "before heap_destroy"); model_remove(b); if (b->slot >= 0 && H.slots[b->slot] == b) H.slots[b->slot] = nullptr; delete b; }
         mi_heap_destroy(m.h);
       } else {
@@ -486,7 +498,7 @@ static void do_heap_op(const Op& op) {
         resolve_backing();
         bool compatible = (m.tag == 0 && m.arena_slot < 0);
         mi_heap_delete(m.h);
-        for (auto& kv : H.live) if (kv.second->heap == mh) kv.second->heap = (compatible ? T->backing : -1);
+        for (auto& kv : H.live) if (kv.second->heap == mh) { kv.second->heap = (compatible ? T->backing : -1); if (!compatible) kv.second->orphan_kind = (m.tag != 0 ? 2 : 3); }
       }
       H.heaps[mh].alive = false; H.heaps[mh].h = nullptr; T->hslots[hs] = -1;
       if (T->deflt == mh) T->deflt = T->backing;
@@ -572,7 +584,7 @@ static void do_thread_op(const Op& op, int /*idx*/) {
       if (T->prog == 0) { H.ops_noop++; return; }   // the main thread never ends
       thread_exit_model(T);
       mi_thread_done();
-      thread_ctx_fresh_heaps(T);
+      thread_ctx_fresh_heaps(T); T->subproc = 0;    // a later allocation creates a fresh thread heap in the main sub-process
       break; }
     case OP_advance: clock_advance_ms(op.a); break;
     case OP_heal_os: os_heal(); break;
@@ -588,7 +600,11 @@ static void check_error_callbacks(const Op& op) {
   int allowed = T->expect_err_mask;
   if (os_faults_fired() > 0 || os_any_fault_active()) allowed |= EB_ENOMEM;
   int bad = T->got_err_mask & ~allowed;
-  if (bad) sim_violation("error_callback", "operation %s reported error class 0x%x through the error callback (allowed 0x%x); last message: %.200s", op_names[op.code], bad, allowed, g_last_out);
+  if (bad) {
+    size_t tag_orphans = 0; for (auto& kv : H.live) if (kv.second->orphan_kind == 2) tag_orphans++;
+    char ctx[120] = ""; if ((bad & EB_EFAULT) && tag_orphans) snprintf(ctx, sizeof ctx, " [%zu live blocks were orphaned by the deletion/termination of a tagged heap]", tag_orphans);
+    sim_violation("error_callback", "operation %s reported error class 0x%x through the error callback (allowed 0x%x)%s; last message: %.200s", op_names[op.code], bad, allowed, ctx, g_last_out);
+  }
   T->got_err_mask = 0; T->got_err_count = 0;
 }
 
@@ -610,9 +626,11 @@ static void exec_op(const Op& op, int idx) {
   os_set_context(T->prog, idx);
   sched_harness_point(idx);
   sched_call_begin();
-  T->expect_err_mask = 0;
+  T->expect_err_mask = 0; T->note[0] = 0;
   H.ops_executed++;
   int c = op.code;
+  if (c <= OP_cfree) H.work_hash += mix64(((uint64_t)c << 32) ^ (uint64_t)(uint32_t)op.slot, op.a ^ (op.b << 20) ^ (op.c << 40));
+  if (c == OP_collect && op.a == 0) H.activity_rounds++;
   if (c >= OP_malloc && c <= OP_new_aligned_nothrow) do_alloc(op);
   else if (c >= OP_realloc && c <= OP_expand) do_realloc(op);
   else if (c >= OP_free && c <= OP_cfree) do_free(op);
@@ -681,6 +699,7 @@ static void purge_hook(int kind, uint64_t addr, uint64_t len);
     for (auto& f : plan.progs[pi].ops[oi].faults) { FaultSpec x; x.vt = (int)pi; x.op = (int)oi; x.kind = f.kind; x.nth = f.nth; x.err = f.err; x.persistent = f.persistent; fs.push_back(x); }
   os_set_faults(fs);
   g_result_extra = &result_extra;
+  g_crash_context = []() -> const char* { return T ? T->note : ""; };
   if (plan.purge_overlap_check) g_os_purge_hook = &purge_hook;
   sched_run(prog_main, (void*)0);
 }
